@@ -4,6 +4,11 @@ use crate::util::*;
 use serde_json::{json, Value};
 use sudachi::analysis::stateless_tokenizer::DictionaryAccess;
 use sudachi::input_text::InputBuffer;
+use sudachi::analysis::Node;
+use sudachi::analysis::node::ResultNode;
+use sudachi::dic::subset::InfoSubset;
+use sudachi::dic::word_id::WordId;
+use sudachi::prelude::MorphemeList;
 
 fn cps_of(v: &Value) -> Vec<u32> {
     v.as_array().unwrap().iter().map(|x| x.as_u64().unwrap() as u32).collect()
@@ -85,6 +90,29 @@ pub fn replay(args: &[String]) -> i32 {
                 let want_mb: Vec<usize> = last["mb"].as_array().unwrap().iter().map(|x| x.as_u64().unwrap() as usize).collect();
                 if hist.len() > 1 && got_ob != want_mb {
                     return Some(json!({"step": hist.len(), "what": "to_orig_byte_idx", "expected": want_mb, "got": got_ob}));
+                }
+            }
+            // morphemes covering one character each, read back through the public Morpheme accessors
+            if alive && !buf.current().is_empty() {
+                let n = buf.current_chars().len();
+                let offs: Vec<usize> = (0..=n).map(|i| buf.to_curr_byte_idx(i)).collect();
+                let nodes: Vec<ResultNode> = (0..n).map(|i| {
+                    ResultNode::new(Node::new(i as u16, (i + 1) as u16, 0, 0, 0, WordId::oov(0)), 0, offs[i] as u16, offs[i + 1] as u16, Default::default())
+                }).collect();
+                let list = MorphemeList::from_components(&dict, buf, nodes, InfoSubset::all());
+                let tiles = v["tiles"].as_array().unwrap();
+                if tiles.len() != list.len() {
+                    return Some(json!({"step": hist.len(), "what": "number of single-character morphemes", "expected": tiles.len(), "got": list.len()}));
+                }
+                let oc = v["oc"].as_array().unwrap();
+                for (i, m) in list.iter().enumerate() {
+                    let got = json!({"b": m.begin(), "e": m.end(), "s": cps(&m.surface())});
+                    if got != tiles[i] {
+                        return Some(json!({"step": hist.len(), "what": "morpheme begin/end/surface", "index": i, "expected": tiles[i], "got": got}));
+                    }
+                    if json!(m.begin_c()) != oc[i] || json!(m.end_c()) != oc[i + 1] {
+                        return Some(json!({"step": hist.len(), "what": "morpheme begin_c/end_c", "index": i, "expected": [oc[i], oc[i + 1]], "got": [m.begin_c(), m.end_c()]}));
+                    }
                 }
             }
             None
